@@ -26,6 +26,7 @@ import (
 	"github.com/ethereum/go-ethereum/core/types"
 	"github.com/ethereum/go-ethereum/crypto"
 	"github.com/ethereum/go-ethereum/ethdb"
+	"github.com/ethereum/go-ethereum/ethdb/memorydb"
 	"github.com/ethereum/go-ethereum/params"
 	tl "verif/harness/tracelib"
 )
@@ -179,6 +180,7 @@ type Node struct {
 	u      *Universe
 	scheme string
 	db     ethdb.Database
+	kv     *imageKV
 	bc     *core.BlockChain
 
 	chainCh chan core.ChainEvent
@@ -212,8 +214,65 @@ func (n *Node) open() {
 	bc.SubscribeLogsEvent(n.logsCh)
 }
 
+// imageKV wraps the in-memory key-value store and, while armed, copies the whole store after
+// every write operation (single Put/Delete or one batch): each copy is what a process that died
+// right after that write would find on disk (crash images, property C39).
+type imageKV struct {
+	ethdb.KeyValueStore
+	armed  bool
+	max    int
+	images []*memorydb.Database
+}
+
+func (k *imageKV) snap() {
+	if !k.armed || len(k.images) >= k.max {
+		return
+	}
+	cp := memorydb.New()
+	it := k.KeyValueStore.NewIterator(nil, nil)
+	for it.Next() {
+		cp.Put(common.CopyBytes(it.Key()), common.CopyBytes(it.Value()))
+	}
+	it.Release()
+	k.images = append(k.images, cp)
+}
+func (k *imageKV) Put(key, value []byte) error {
+	err := k.KeyValueStore.Put(key, value)
+	k.snap()
+	return err
+}
+func (k *imageKV) Delete(key []byte) error {
+	err := k.KeyValueStore.Delete(key)
+	k.snap()
+	return err
+}
+func (k *imageKV) DeleteRange(start, end []byte) error {
+	err := k.KeyValueStore.DeleteRange(start, end)
+	k.snap()
+	return err
+}
+func (k *imageKV) NewBatch() ethdb.Batch { return &imageBatch{Batch: k.KeyValueStore.NewBatch(), k: k} }
+func (k *imageKV) NewBatchWithSize(size int) ethdb.Batch {
+	return &imageBatch{Batch: k.KeyValueStore.NewBatchWithSize(size), k: k}
+}
+
+type imageBatch struct {
+	ethdb.Batch
+	k *imageKV
+}
+
+func (b *imageBatch) Write() error {
+	empty := b.Batch.ValueSize() == 0
+	err := b.Batch.Write()
+	if !empty {
+		b.k.snap()
+	}
+	return err
+}
+
 func newNode(u *Universe, scheme string) *Node {
-	n := &Node{u: u, scheme: scheme, db: rawdb.NewMemoryDatabase()}
+	kv := &imageKV{KeyValueStore: memorydb.New()}
+	n := &Node{u: u, scheme: scheme, kv: kv, db: rawdb.NewDatabase(kv)}
 	// The tx indexer runs with limit 0 on a database that is already marked as indexed from
 	// block 0: its background runs are no-ops and all lookup maintenance is the synchronous
 	// part in writeHeadBlock/reorg (the first run on a fresh database is scheduled by a racy
@@ -533,6 +592,49 @@ func randomTree(r interface{ Intn(int) int }, nblocks, ntx int) Tree {
 	return t
 }
 
+// recoverImage opens a BlockChain on a crash image (a copy of the key-value store taken in the
+// middle of a call), projects the recovered state, then imports the blocks up to the head the
+// completed call reached on the live node and reports whether that yields the same head, number
+// index and available head state ("heal").
+func (n *Node) recoverImage(img *memorydb.Database, live State) (State, tl.M) {
+	rn := &Node{u: n.u, scheme: n.scheme, kv: &imageKV{KeyValueStore: img}}
+	rn.db = rawdb.NewDatabase(rn.kv)
+	rn.open()
+	rec, _ := rn.project()
+	rec.Ev, rec.Err = Events{Chain: []int{}, Head: []int{}, Rm: [][][2]int{}, Logs: [][][2]int{}}, "none"
+	normalize(&rec)
+	heal := tl.M{"target": live.Hb, "err": "none", "hb": -1, "hh": -1, "canonok": false, "state": false}
+	if live.Hb > 0 {
+		var path []int
+		for b := live.Hb; b != 0; b = n.u.tree.Parent[b-1] {
+			path = append([]int{b}, path...)
+		}
+		blks := make(types.Blocks, len(path))
+		for i, b := range path {
+			blks[i] = n.u.blocks[b]
+		}
+		_, err := rn.bc.InsertChain(blks)
+		heal["err"] = classify(err)
+		rn.drain()
+		after, _ := rn.project()
+		heal["hb"], heal["hh"] = after.Hb, after.Hh
+		ok := true
+		for i, b := range path {
+			if after.Canon[i] != b {
+				ok = false
+			}
+		}
+		heal["canonok"] = ok
+		heal["state"] = rn.bc.HasState(n.u.blocks[live.Hb].Root())
+	} else {
+		heal["hb"], heal["hh"], heal["canonok"], heal["state"] = rec.Hb, rec.Hh, true, true
+	}
+	rn.bc.Stop()
+	return rec, heal
+}
+
+var crashEvery int
+
 func runRecord(path string, seed int64, ntraces, steps, nblocks, ntx int, sum *tl.Summary) {
 	r := tl.Rand(seed)
 	tr := tl.NewTrace(path)
@@ -593,10 +695,29 @@ func runRecord(path string, seed int64, ntraces, steps, nblocks, ntx int, sum *t
 			default:
 				a = Act{Op: "Restart"}
 			}
+			takeImages := crashEvery > 0 && a.Op != "Restart" && r.Intn(crashEvery) == 0
+			if takeImages {
+				n.kv.images, n.kv.max, n.kv.armed = nil, 16, true
+			}
 			ev, errc := n.apply(a)
+			n.kv.armed = false
 			got, odd := n.project()
 			got.Ev, got.Err = ev, errc
 			normalize(&got)
+			if takeImages {
+				// every intermediate image is reopened as after a crash; the events come before the
+				// event of the completed call (the specification is still in the state before the call)
+				imgs := n.kv.images
+				n.kv.images = nil
+				if len(imgs) > 0 {
+					imgs = imgs[:len(imgs)-1] // the last image is the completed call
+				}
+				for k, img := range imgs {
+					rec, heal := n.recoverImage(img, got)
+					sum.Count("CrashIn")
+					tr.Emit(tl.M{"op": "CrashIn", "act": tl.M{"op": a.Op, "seg": orEmpty(a.Seg), "b": a.B, "n": a.N}, "k": k + 1, "st": rec, "heal": heal})
+				}
+			}
 			calls = append(calls, Step{Act: a, St: got})
 			sum.Steps++
 			sum.Count(a.Op)
@@ -679,6 +800,7 @@ func main() {
 	steps := flag.Int("steps", 12, "calls per trace (record)")
 	nblocks := flag.Int("blocks", 7, "max blocks per tree (record)")
 	ntx := flag.Int("ntx", 3, "transactions in the universe (record)")
+	flag.IntVar(&crashEvery, "crashin", 0, "record: take crash images inside every n-th call on average (0 = never)")
 	flag.Parse()
 	seed := int64(tl.EnvInt("VERIF_SEED", 1))
 	sum := tl.NewSummary("c38", *mode, seed)
